@@ -4,7 +4,7 @@ import json, os
 V = os.path.dirname(os.path.dirname(os.path.abspath(__file__)))
 props = [json.loads(l) for l in open(os.path.join(V, "properties.jsonl"))]
 
-SCAN_NOTE = "Trusted: Coq kernel, extraction, harness, fakegit; git's traversal enters as the contract (duplicate-free, exactly the reachable set, commits before parents), evaluated (contract_b) on every real and generated enumeration. Guard 'small' (no object size / name length / entry count >= 2^32-1) is necessary (C05_narrow_then_wide_refuted). The work-list fuel of the model is excluded in the statement (result is SOk or the explicit out-of-fuel value)."
+SCAN_NOTE = "Trusted: Coq kernel, extraction, harness, fakegit; git's traversal enters as the contract (duplicate-free, exactly the reachable set, commits before parents), evaluated (contract_b) on every real and generated enumeration. Guard 'small' (no object size / name length / entry count >= 2^32-1) is necessary (C05_narrow_then_wide_refuted). The work-list fuel of the model is proved sufficient (Deferred.run_terminates, ScanFinal.sum_wt_le): the theorems conclude scan = SOk evs outright."
 
 CLAIMS = {
  "C05": dict(
